@@ -1014,18 +1014,15 @@ impl TextPane for Buffer {
                 }
                 crate::Mode::Attributes => {
                     if attr_opt.is_none() && ch.is_visible() {
-                        attr_opt = Some(ch.attribute);
+                        // a transparent colour of the override shows a blank cell, whatever lies beneath: made solid here,
+                        // so that the override is shown the same over a cell, over an empty opaque layer and over nothing
+                        attr_opt = Some(self.make_solid_color(ch, AttributedChar::default()).attribute);
                     }
                 }
             }
             // an opaque layer of any mode hides what lies beneath it, also where it has no cell
             if !cur_layer.properties.has_alpha_channel {
-                let mut res = merge(AttributedChar::default().with_font_page(cur_layer.default_font_page), ch_opt, attr_opt);
-                if attr_opt.is_some() {
-                    // nothing beneath an opaque layer is seen: a transparent colour of the override shows a blank cell
-                    // (a transparent cell remembered from a layer above is kept, it is filled from `res`)
-                    res = self.make_solid_color(res, AttributedChar::default());
-                }
+                let res = merge(AttributedChar::default().with_font_page(cur_layer.default_font_page), ch_opt, attr_opt);
                 if let Some(transparent_char) = transparent_char {
                     return self.make_solid_color(transparent_char, res);
                 }
@@ -1033,13 +1030,14 @@ impl TextPane for Buffer {
             }
         }
 
+        // nothing solid beneath: a blank cell with the overrides, as an opaque bottom layer shows it (a flattened copy has to look the same)
+        let res = merge(AttributedChar::default().with_font_page(default_font_page), ch_opt, attr_opt);
         if let Some(transparent_char) = transparent_char {
-            // nothing solid beneath: fill from a blank cell, as an opaque bottom layer does (a flattened copy has to look the same)
-            return self.make_solid_color(transparent_char, AttributedChar::default());
+            return self.make_solid_color(transparent_char, res);
         }
 
         if self.is_terminal_buffer || ch_opt.is_some() || attr_opt.is_some() {
-            merge(AttributedChar::default().with_font_page(default_font_page), ch_opt, attr_opt)
+            res
         } else {
             AttributedChar::invisible()
         }
